@@ -80,6 +80,9 @@ structure LogEntry where
 
 structure Cfg where
   memTableSize : Nat
+  /-- `cfg.WALMaxSize` so small that a log file holding anything is "too large to reuse": wal.ReuseWAL returns nil and the
+      storage manager starts a new log file at every open (the harness sets WALMaxSize = 1) -/
+  freshLog : Bool := false
   deriving Repr
 
 structure St where
@@ -223,6 +226,15 @@ def reopen (s : St) : St :=
   { cfg := s.cfg, wal := s.wal, walNext := if mx > 0 then max 1 (mx + 1) else 1, pool,
     mgrImm := tables.dropLast.map (fun t => { t with immutable := true }),
     ssts, nextFileNum := nextFile, lastSeq := mx, clock := s.clock }
+
+/-- open when the newest log file is too large to reuse: everything as `reopen`, but a new (empty) log file is started
+    behind a non-empty newest file; the counter continues after the highest replayed number all the same -/
+def reopenFresh (s : St) : St :=
+  let r := reopen s
+  if (s.wal.getLast?.getD []).isEmpty then r else { r with wal := r.wal ++ [[]] }
+
+/-- close + NewManager as configured -/
+def reopenC (s : St) : St := if s.cfg.freshLog then reopenFresh s else reopen s
 
 /-! ### Scan sources (iterator.Factory.createBaseIterator): active, immutables newest first, tables newest first;
       each source yields its entries in order (a memtable: newest version of a key first). -/
